@@ -35,3 +35,89 @@ Definition check_toflags (fs : list field) : verdict :=
 
 Definition check_291 (fs : list field) : verdict := check_toflags fs.
 Definition check_1691 (fs : list field) : verdict := check_toflags fs.
+
+(* ------------------------------------------------------------------ thrift/idl.go convertRequireness, thrift/utils.go marked-bit decisions *)
+From DG Require Import Requireness Gen_thriftreq.
+
+(* the model's f_req is the IDL's parser.FieldType (0 default, 1 required, 2 optional); thrift.Requireness numbers them differently *)
+Definition go_req (r : Z) : Z := if r =? 0 then DefaultRequireness else if r =? 1 then RequiredRequireness else OptionalRequireness.
+Definition model_req (g : Z) : Z := if g =? DefaultRequireness then 0 else if g =? RequiredRequireness then 1 else 2.
+(* RequiresBitmap.Set(id, val): Required / Default mark the bit, Optional clears it (thrift/utils.go:50) *)
+Definition set_marks (req : Z) : bool := (req =? RequiredRequireness) || (req =? DefaultRequireness).
+Definition zb (z : Z) : bool := negb (z =? 0).
+
+(* 1692 fields: r, id, isRequestBase, isResponseBase, SetOptionalBitmap, bitmap bit before, f.required before,
+                f.required after, bitmap bit after, panicked *)
+Definition check_1692 (fs : list field) : verdict :=
+  match fs with
+  | [FZ rq; FZ id; FZ reqBase; FZ respBase; FZ setOpt; FZ before; FZ old; FZ required; FZ after; FZ panicked] =>
+    let g := convertRequireness rq
+               {| convertRequireness_f_id := id; convertRequireness_f_isRequestBase := zb reqBase;
+                  convertRequireness_f_isResponseBase := zb respBase; convertRequireness_f_required := old |}
+               {| convertRequireness_opts_SetOptionalBitmap := zb setOpt |} in
+    match g with
+    | None => expect 1 ((panicked =? 1) && (required =? old) && (after =? before)) []
+    | Some (req', [(e, [eid; req])]) =>
+      vand (expect 1 ((panicked =? 0) && (required =? req') && (e =? Eff_Set) && (eid =? id) && (Z.b2z (set_marks req) =? after))
+                   [FZ req'; FZ req])
+           (* the model: f.required is the IDL requiredness, the bit is [tracked] (never for the thrift base fields) *)
+           (expect 2 ((required =? go_req rq) &&
+                      (Z.b2z (negb (zb reqBase || zb respBase) &&
+                              tracked {| p_opt_bitmap := zb setOpt; p_use_default := false |} {| f_id := id; f_req := rq; f_hasdef := false |}) =? after))
+                   [FZ (go_req rq)])
+    | Some _ => VBad 3 []
+    end
+  | _ => VBad 99 []
+  end.
+
+(* what one marked bit leads to, as observed from outside: (an error came back, id the handler got or -1, number of handler calls) *)
+Definition decode_marked (res : Z * Z * list (Z * list Z)) : option (Z * Z * Z) :=
+  let '(out, _, eff) := res in
+  match eff with
+  | [(e1, [id])] => if (e1 =? Eff_FieldById) && (out =? Out_continue) then Some (0, -1, 0) else None
+  | [(e1, [id]); (e2, _)] =>
+    if negb (e1 =? Eff_FieldById) then None
+    else if (out =? Out_return) && ((e2 =? Eff_errMissRequiredField) || (e2 =? Eff_errInvalidBitmapId)) then Some (1, -1, 0)
+    else if (out =? Out_fall) && (e2 =? Eff_handler) then Some (0, id, 1)
+    else None
+  | _ => None
+  end.
+Definition obs_of_action (a : action) (id : Z) : Z * Z * Z :=
+  match a with AMissing => (1, -1, 0) | ASkip => (0, -1, 0) | _ => (0, id, 1) end.
+Definition obs_eqb (a b : Z * Z * Z) : bool :=
+  let '(a1, a2, a3) := a in let '(b1, b2, b3) := b in (a1 =? b1) && (a2 =? b2) && (a3 =? b3).
+Definition obs_fields (o : Z * Z * Z) : list field := let '(a, b, c) := o in [FZ a; FZ b; FZ c].
+
+(* 1693 fields: id, thrift.Requireness of the field, has default value, writeRequired, writeDefault, writeOptional,
+                error came back, id the handler was called with (-1 none), f.Required(), f.DefaultValue()==nil, handler calls *)
+Definition check_1693 (fs : list field) : verdict :=
+  match fs with
+  | [FZ fid; FZ req; FZ hasdef; FZ wr; FZ wd; FZ wo; FZ errd; FZ handled; FZ goReq; FZ defNil; FZ calls] =>
+    let obs := (errd, handled, calls) in
+    let g := HandleRequires_marked (zb wr) (zb wd) (zb wo) (fid / 64) 1 (fid mod 64)
+               {| HandleRequires_marked_f_DefaultValue_isnil := zb defNil; HandleRequires_marked_f_Required := goReq |} in
+    let p := {| p_opt_bitmap := true; p_use_default := true |} in
+    let w := {| w_require := zb wr; w_default := zb wd; w_optional := zb wo; w_disallow_unknown := false |} in
+    let f := {| f_id := fid; f_req := model_req req; f_hasdef := zb hasdef |} in
+    vand (expect 1 (match decode_marked g with Some o => obs_eqb o obs | None => false end)
+                 (match decode_marked g with Some o => obs_fields o | None => [] end))
+   (vand (expect 2 ((goReq =? req) && (Bool.eqb (zb defNil) (negb (zb hasdef)))) [])
+         (expect 3 (obs_eqb (obs_of_action (handle_requires_decision p w f) fid) obs) (obs_fields (obs_of_action (handle_requires_decision p w f) fid))))
+  | _ => VBad 99 []
+  end.
+
+(* 1193 fields: id, thrift.Requireness, the marked bit has no field, writeDefault, error came back, handled id, f.Required() (-1 no field), calls *)
+Definition check_1193 (fs : list field) : verdict :=
+  match fs with
+  | [FZ fid; FZ req; FZ nofield; FZ wd; FZ errd; FZ handled; FZ goReq; FZ calls] =>
+    let obs := (errd, handled, calls) in
+    let g := CheckRequires_marked (zb wd) (fid / 64) 1 (fid mod 64)
+               {| CheckRequires_marked_f_Required := (if zb nofield then 0 else goReq); CheckRequires_marked_f_isnil := zb nofield |} in
+    let f := {| f_id := fid; f_req := model_req req; f_hasdef := false |} in
+    let m := if zb nofield then (1, -1, 0) else obs_of_action (check_requires_decision (zb wd) f) fid in
+    vand (expect 1 (match decode_marked g with Some o => obs_eqb o obs | None => false end)
+                 (match decode_marked g with Some o => obs_fields o | None => [] end))
+   (vand (expect 2 (if zb nofield then goReq =? -1 else goReq =? req) [])
+         (expect 3 (obs_eqb m obs) (obs_fields m)))
+  | _ => VBad 99 []
+  end.
